@@ -16,6 +16,7 @@ def families : List (List String × (List String → String → Verdict)) := [
   (["filter"], Filter.handle),
   (["typed"], Typed.handle),
   (["loop"], Loop.handle),
+  (["pc"], Commands.handle),
 ]
 
 def dispatch (line : String) : String :=
